@@ -25,6 +25,9 @@ LEVEL = "exploration"
 SHARD_TIMEOUT = {"quick": 280, "thorough": 1700}
 SCRIPTS = [[], ["config"], ["upload"], ["search"], ["config", "upload"], ["upload", "search"], ["config", "search"]]
 POLICIES = ["immediate", "lag1", "end", "one-late"]
+KEPT = [([["search"], ["config"], [], ["search"]], [0, 3, 2, 3, 0, 1, 3, 1, 2, 1, 0]),
+        ([["search"], ["config"], [], ["search"]], [0, 3, 2, 3, 0, 1, 1, 3, 2, 1, 0]),
+        ([["search"], ["upload"], ["config"], ["search"]], [0, 3, 2, 3, 0, 1, 3, 1, 2, 2, 1, 0])]
 SETTLE = 0.004
 WORKERS_PER_CORE = 2   # the shards spend most of their time in settle sleeps
 
@@ -502,6 +505,14 @@ async def amain(spec, acc, ctx):
                         break
                     await retry_on_timeout(acc, lambda: sch.run(scripts, order, POLICIES[n % 4]))
             acc.add("three_conn_triples_done", len(triples))
+        if spec["index"] == 0:
+            # schedules that once exposed a defect are kept (here: a fourth connection opening around the close of a
+            # refused one overtook an earlier waiter), with and without the other-service connection
+            for (scr, order) in KEPT:
+                for pol in ("one-late", "immediate", "lag1"):
+                    for bys in (None, "hold"):
+                        await retry_on_timeout(acc, lambda: sch.run(scr, order, pol, bys))
+                        acc.count("kept_schedules")
         for w in range(spec["walks"]):
             if stop():
                 break
